@@ -4,6 +4,7 @@ import (
 	"fmt"
 	"go/token"
 	"go/types"
+	"strings"
 
 	"golang.org/x/tools/go/ssa"
 )
@@ -401,9 +402,12 @@ func checkC18(c *Ctx) {
 	c.Expect("R3", 6)
 	c.Expect("R4", 2)
 	c.Expect("R6", 2)
+	checkInPlaceTextRewrite(c, "R4")
 	checkSnapshotImmutable(c, "R5")
 	checkHookOrder(c, "R7")
 	c.Expect("R7", 2)
+	c.Rule("R8", "no object that is given back to a sync.Pool is still captured by a registered completion hook")
+	checkNoPooledObjectInHook(c, "R8")
 }
 
 // checkScanTermConst verifies respScanTerm = Array[ BulkString "0", Array[] ] from its initialiser.
@@ -595,5 +599,137 @@ func checkHookOrder(c *Ctx, rule string) {
 	}
 	if npairs == 0 {
 		c.Note("no function registers both a completing and a rewriting hook on one request")
+	}
+}
+
+// checkInPlaceTextRewrite (C18.R4 ext, C10.R2 ext): decoded texts are cut from a shared slab. Appending into a decoded
+// text in place (append(x.Text[:0], ...), strconv.AppendUint(x.Text[:0], ...)) is only harmless while every slab
+// slice is handed out with its capacity cut to its length (three-index slice) - then an append that outgrows the text
+// reallocates. If the slab hands out plain two-index slices, such an append overwrites the bytes of the neighbouring
+// values of the same reply (the SCAN cursor patch overwrites the first keys of the batch).
+func checkInPlaceTextRewrite(c *Ctx, rule string) {
+	p := c.P
+	mk := p.Func(redisPkg, "(*sliceAlloc).Make")
+	if mk == nil {
+		c.Unresolved(rule, "(*sliceAlloc).Make")
+		return
+	}
+	// does every slice of the slab that Make returns carry a capacity bound?
+	capLimited := true
+	nsl := 0
+	eachInstr(mk, func(_ *ssa.BasicBlock, _ int, in ssa.Instruction) {
+		sl, ok := in.(*ssa.Slice)
+		if !ok || sl.Low != nil {
+			return // the remainder buf[n:] is not handed out
+		}
+		if f, _ := loadedField(sl.X); f == nil || f.Name() != "buf" {
+			return
+		}
+		nsl++
+		if sl.Max == nil {
+			capLimited = false
+		}
+	})
+	// in-place appends into a RESP text
+	var sites []ssa.Instruction
+	for _, fn := range p.FuncsIn(redisPkg) {
+		if p.isTestFn(fn) {
+			continue
+		}
+		eachInstr(fn, func(_ *ssa.BasicBlock, _ int, in ssa.Instruction) {
+			call, ok := in.(*ssa.Call)
+			if !ok || len(call.Call.Args) == 0 {
+				return
+			}
+			isAppend := isBuiltin(call, "append")
+			if g := calleeFn(call.Common()); g != nil && g.Pkg != nil && g.Pkg.Pkg.Path() == "strconv" && strings.HasPrefix(g.Name(), "Append") {
+				isAppend = true
+			}
+			if !isAppend {
+				return
+			}
+			sl, ok := call.Call.Args[0].(*ssa.Slice)
+			if !ok {
+				return
+			}
+			if f, b := loadedField(sl.X); f != nil && f.Name() == "Text" && modType(b.Type(), redisPkg, "RespValue") {
+				sites = append(sites, in)
+			}
+		})
+	}
+	if len(sites) == 0 {
+		c.OK(rule, "no in-place append into a decoded text", mk.Pos(), fmt.Sprintf("slab slices capacity-limited: %v (%d slice sites)", capLimited, nsl))
+		return
+	}
+	for i, s := range sites {
+		c.Check(capLimited && nsl > 0, rule, fmt.Sprintf("in-place append into a decoded text #%d is confined to that text", i+1), s.Pos(), "the slab hands out capacity-limited slices, an append that outgrows the text reallocates", "a decoded text is appended to in place while the slab allocator hands out slices whose capacity reaches into the following values: the append overwrites the neighbouring elements of the same reply (a longer SCAN cursor overwrites the first keys of the batch - the client receives key names that exist on no node)")
+	}
+}
+
+// checkNoPooledObjectInHook (C18.R8, C02): a completion hook runs when the backend answers - after the handler that
+// registered it has returned. An object that is given back to a sync.Pool by the handler while a registered hook still
+// captures it is handed to the next request: the hook then reads and writes that other request's state (a SCAN reply
+// carries another iteration's node index - the iteration jumps to another node and loses keys).
+func checkNoPooledObjectInHook(c *Ctx, rule string) {
+	p := c.P
+	reg := p.Func(redisPkg, "(*simpleRequest).RegisterHook")
+	rreg := p.Func(redisPkg, "(*rawRequest).RegisterHook")
+	// types whose values are put into a sync.Pool
+	pooled := map[*types.Named]ssa.Instruction{}
+	// types captured by registered hooks
+	captured := map[*types.Named]ssa.Instruction{}
+	nHooks := 0
+	for _, fn := range p.FuncsIn(redisPkg) {
+		if p.isTestFn(fn) {
+			continue
+		}
+		eachInstr(fn, func(_ *ssa.BasicBlock, _ int, in ssa.Instruction) {
+			call, ok := in.(ssa.CallInstruction)
+			if !ok {
+				return
+			}
+			cc := call.Common()
+			if g := calleeFn(cc); g != nil && g.String() == "(*sync.Pool).Put" && len(cc.Args) == 2 {
+				v := cc.Args[1]
+				if mi, ok := v.(*ssa.MakeInterface); ok {
+					v = mi.X
+				}
+				if nt := namedOf(deref(v.Type())); nt != nil && nt.Obj().Pkg() != nil && nt.Obj().Pkg().Path() == modPath+"/"+redisPkg {
+					pooled[nt] = in
+				}
+			}
+			if (reg != nil && isCallToFn(in, reg)) || (rreg != nil && isCallToFn(in, rreg)) {
+				nHooks++
+				mc, ok := cc.Args[1].(*ssa.MakeClosure)
+				if !ok {
+					return
+				}
+				for _, b := range mc.Bindings {
+					t := b.Type()
+					// a captured cell: pointer to the variable
+					if pt, ok := t.Underlying().(*types.Pointer); ok {
+						if nt := namedOf(deref(pt.Elem())); nt != nil && nt.Obj().Pkg() != nil && nt.Obj().Pkg().Path() == modPath+"/"+redisPkg {
+							captured[nt] = in
+						}
+					}
+					if nt := namedOf(deref(t)); nt != nil && nt.Obj().Pkg() != nil && nt.Obj().Pkg().Path() == modPath+"/"+redisPkg {
+						captured[nt] = in
+					}
+				}
+			}
+		})
+	}
+	bad := 0
+	for nt, at := range pooled {
+		if hk, ok := captured[nt]; ok {
+			bad++
+			c.Fail(rule, "pooled "+nt.Obj().Name()+" captured by a registered hook", at.Pos(), "values of type "+nt.Obj().Name()+" are given back to a sync.Pool while a completion hook registered at "+p.Pos(hk.Pos())+" still captures one: the hook runs after the release, on an object that meanwhile belongs to another request - it reads and overwrites that request's state")
+		}
+	}
+	if bad == 0 {
+		c.OK(rule, "no pooled object is captured by a registered hook", token.NoPos, fmt.Sprintf("%d hook registrations, %d pooled types", nHooks, len(pooled)))
+	}
+	if nHooks == 0 {
+		c.Unresolved(rule, "no hook registration found")
 	}
 }
